@@ -55,6 +55,15 @@ def same_status(a, b):
     return True
 
 
+def corrected(p):
+    """status.go CorrectRunningStatus on a projection"""
+    if p is not None and p["st"] == RUNNING:
+        q = dict(p)
+        q["st"], q["text"] = FAILED, "failed"
+        return q
+    return p
+
+
 def is_main(role):
     return role.endswith(").Run")
 
@@ -91,13 +100,29 @@ def monitor_inproc(c):
         out.append(("agent.Run panicked: " + c["run_err"][:200], {"class": "panic"}))
 
     # ---- live: every answer obtained while the run was in progress ------------------------------------
+    fw = final_write(c)
+    stale = stale_after_final(c)
+    mains = [w for w in c["writes"] if is_main(w["role"])]
+    s0_done = mains[0]["t2"] if mains else None
     for p in c["polls"]:
         if p.get("err") or p["st"] is None:
+            if c["t_close0"] and p["t1"] >= c["t_close0"] and p["t0"] <= c["t_close1"] + 2000:
+                # a reader racing with Close's compaction (the original is unlinked under it): the property is silent about
+                # the instant between "in progress" and "process ended"; counted, not judged
+                c.setdefault("_obs", {}).setdefault("read_error_during_compaction", 0)
+                c["_obs"]["read_error_during_compaction"] += 1
+                continue
+            if p.get("err") == "EOF" and (s0_done is None or p["t0"] <= s0_done):
+                out.append(("status query during start-up fails: the newest history file exists and is still empty (EOF)",
+                            {"class": "empty-newest-history-file"}))
+                continue
             out.append(("GetLatestStatus failed during the run: %s" % p.get("err"), {"class": "live-error"}))
             continue
         t0, t1, s = p["t0"], p["t1"], p["st"]
         if t0 < c["t_run0"] or t1 > c["t_run1"]:
             continue
+        if stale and fw is not None and t1 >= fw["t2"]:
+            continue      # answered from a history that ends with a stale snapshot: judged once, below
         in_progress = first0 is not None and last1 is not None and t0 > first0 and t1 < last1
         if in_progress:
             if s["st"] != RUNNING:
@@ -129,7 +154,7 @@ def monitor_inproc(c):
         stale = stale_after_final(c)
         which = L if not same_status(L, F) else c["by_req"]
         cls = {"class": "final-differs"}
-        if stale and any(same_status(which, w["st"]) for w in stale):
+        if stale and any(same_status(which, corrected(w["st"])) for w in stale):
             cls = {"class": "stale-snapshot-after-final"}
         out.append(("the persisted status of the finished run (overall %r, steps %s) is not its final state (overall %r, steps %s)"
                     % (which["text"], table(which), F["text"], table(F)), cls))
@@ -193,7 +218,7 @@ def monitor_prefixes(c):
         if r == RUNNING:
             out.append((j, "killed run reported as running", {"class": "dead-running"}))
         elif r == FINISHED and any(s not in DONE_OK for s in t):
-            cls = {"class": "kill-between-steps"} if all(s in (NONE, FINISHED, SKIPPED) for s in t) else {"class": "dead-finished-other"}
+            cls = {"class": "kill-between-steps"} if all(s in (NONE, RUNNING, FINISHED, SKIPPED) for s in t) else {"class": "dead-finished-other"}
             out.append((j, "a kill after history line %d leaves the cut-short run reported as finished (steps %s)" % (j, t), cls))
     return out
 
@@ -206,8 +231,9 @@ def coq_node(n):
     return "(%d, %d)" % (n["st"], n["rc"])
 
 
-def coq_snap(p, canc, err):
-    return "(%d, (%s, %s), %s)" % (p["st"], vlib.cbool(canc), vlib.cbool(err), vlib.clist([coq_node(n) for n in p["nodes"]]))
+def coq_snap(p, hc, he):
+    """hc / he: hints for the cancel flag and lastError (0 false, 1 true, 2 unknown)"""
+    return "(%d, (%d, %d), %s)" % (p["st"], hc, he, vlib.clist([coq_node(n) for n in p["nodes"]]))
 
 
 def role_of(c, w):
@@ -228,11 +254,22 @@ def coq_case(c):
     ws = [w for w in c["writes"] if not w.get("dropped") and not w.get("err")]
     ws.sort(key=lambda w: (w["t2"], w["seq"]))
     out = []
+    fail_end = {}
+    for e in c["exec"]:
+        if not e["ok"] and e["t1"] >= 0:
+            fail_end[e["name"]] = max(fail_end.get(e["name"], 0), e["t1"])
     for w in ws:
         s = w["st"]
-        canc = stop and s["st"] == CANCELED
-        err = any(n["st"] == FAILED for n in s["nodes"])
-        out.append("(%d, %s)" % (role_of(c, w), coq_snap(s, canc, err)))
+        after_stop = stop and w["t0"] >= c["t_stop"]
+        hc = 2 if after_stop else 0
+        failed = [n["name"] for n in s["nodes"] if n["st"] == FAILED]
+        he = 0
+        # lastError is written a few instructions after the node status: a snapshot taken right then may miss it
+        if failed and any(w["t0"] - fail_end.get(nm, -10 ** 9) < 5000 for nm in failed):
+            he = 2
+        if after_stop:
+            he = 2
+        out.append("(%d, %s)" % (role_of(c, w), coq_snap(s, hc, he)))
     lives = []
     for p in c["polls"]:
         if p.get("err") or p["st"] is None or p["t0"] < c["t_run0"] or p["t1"] > c["t_run1"]:
@@ -514,7 +551,10 @@ def monitor_crash(case):
         if L["st"] == FINISHED:
             incomplete = [s for s in scen["steps"] if s + ".end" not in marks and s not in scen["fails"]]
             if any(s not in DONE_OK for s in t) or incomplete:
-                cls = {"class": "kill-between-steps"} if (all(s in (NONE, FINISHED, SKIPPED) for s in t) and NONE in t) else {"class": "dead-finished-other"}
+                # `finished` answered while steps are pending (not started; or - the overall status being read before the node
+                # table is copied - already running): the window of F8a.  A failed / canceled step in the table is something else.
+                pending = all(s in (NONE, RUNNING, FINISHED, SKIPPED) for s in t) and (NONE in t or RUNNING in t)
+                cls = {"class": "kill-between-steps"} if pending else {"class": "dead-finished-other"}
                 out.append(("killed run reported as finished although step(s) %s never completed (reported steps %s, markers %s)"
                             % ([n["name"] for n in L["nodes"] if n["st"] not in DONE_OK] or incomplete, t, sorted(marks)), cls))
     cur = post.get("current")
